@@ -118,6 +118,10 @@ Section Keyed.
         else bind (push rs n bucket_size) (fun rs' => absorb r (n :: sn) rs')
     end.
 
+  (* lookup.query: success := len(r) > 0; it.tab.trackRequest(n, success, r)  -- the flag the table's failure counter sees.
+     (Skipped altogether when the query function reports errClosed.) *)
+  Definition track_success (r : list (option N)) : bool := Nat.ltb 0 (length r).
+
   (* case nodes := <-it.replyCh  for the reply of peer p *)
   Definition deliver_peer (s : lk) (p : N) (nodes : list (option N)) : res lk :=
     if mem p (pending s) then
